@@ -114,7 +114,7 @@ class LetFiller(Visitor):
         if reg.fundamental:
             if isinstance(reg.size, Constant):
                 new_size = self.resolve_constant(reg.size)
-                return ["register", reg.name, new_size]
+                return Register(reg.name, new_size)
             else:
                 return reg
         else:
